@@ -59,6 +59,7 @@ WirePage == {
   <<"ch_nl_oversize", "h_chunk_nl_readline", "ValueError">>, <<"ch_trailer_oversize", "h_trailer_readline", "ValueError">>,
   Fx("trailer_lenient", <<"ch_trailer_no_colon", "h_trailer_parse", "ValueError">>, <<"ch_trailer_no_colon", "none", "none">>), <<"ch_trailer_nul", "none", "none">>,
   <<"ch_te_capital", "none", "none">>, <<"ch_zero_only", "none", "none">>,
+  <<"ch_te_empty", "none", "none">>, <<"ch_te_commas", "none", "none">>, <<"ch_te_trailing_comma", "none", "none">>,
   \* content codings
   <<"gz_corrupt_header", "h_decompress", "ZlibError">>, <<"gz_corrupt_body", "h_decompress", "ZlibError">>,
   <<"gz_truncated", "h_flush", "ZlibError">>, <<"gz_trailing_garbage", "none", "none">>, <<"gz_empty", "none", "none">>,
@@ -94,6 +95,8 @@ WirePage == {
 WireRobots == {
   <<"rb_binary", "none", "none">>, <<"rb_huge", "none", "none">>, <<"rb_utf16", "none", "none">>,
   <<"rb_directives_garbage", "none", "none">>, <<"rb_nul", "none", "none">>,
+  <<"rb_status_999", "none", "none">>, <<"rb_status_600", "none", "none">>, <<"rb_status_000", "none", "none">>,
+  <<"rb_status_299", "none", "none">>,
   <<"rb_garbage_response", "r_status_parse", "ProtocolError">>, <<"rb_500", "r_status_5xx", "ServerError">>,
   <<"rb_redirect_bad", "r_redirect_next", "ValueError">>, <<"rb_close_immediately", "r_hdr_readline", "NetworkError">>,
   <<"rb_gzip_bad", "r_decompress", "ZlibError">>, <<"rb_oversize_line", "r_hdr_readline", "ValueError">>,
